@@ -187,23 +187,12 @@ def replay_history(job):
     cases = []
     svec = None
     for k, op in enumerate(job["hist"]):
-        if op["op"] in ("break", "repair", "edit", "undo"):
-            key = "break" if op["op"] in ("break", "repair") else "edit"
-            tbl, col, idx, val = knobs[key]
-            if op["op"] in ("break", "edit"):
-                saved[key] = net[tbl].loc[idx, col].copy()
-                net[tbl].loc[idx, col] = val
-            else:
-                net[tbl].loc[idx, col] = saved[key]
+        if op["op"] in H.EDIT_KEY or op["op"] == "setuser":
+            H.apply_edit(net, knobs, op, saved)
             continue
         if op["op"] != "run":
             continue
-        opts = {"mode": op["mode"], "nonlinear_method": op["method"], "use_numba": False}
-        opts["iter"] = 1 if op["budget"] == "starved" else 60
-        if op.get("tols") == "split":      # very different tolerances per quantity: each must be judged by its own
-            opts.update(tol_p=1e-4, tol_m=1e-1, tol_T=1e-5, tol_res=1e6)
-        elif op.get("tols") == "split2":
-            opts.update(tol_p=1e-1, tol_m=1e-4, tol_T=1e-1, tol_res=1e6)
+        opts = H.run_options(op)
         thermal = op["mode"] != "hydraulics"
         vh.drain()
         kw = {}
@@ -257,7 +246,7 @@ def gen_hist(consts, simulate=None, depth=None, seed=0, timeout=900):
 
 
 HIST_CONSTS = {"Modes": '= {"hydraulics", "sequential", "bidirectional", "heat"}',
-               "Budgets": '= {"ample", "starved"}', "Methods": '= {"constant", "automatic"}', "TolSets": '= {"default", "split", "split2"}', "EditOps": "= {}"}
+               "Budgets": '= {"ample", "starved"}', "Methods": '= {"constant", "automatic"}', "TolSets": '= {"default", "split", "split2"}', "Matrix": '= {"plain"}', "EditOps": "= {}"}
 
 
 def main():
